@@ -4,6 +4,9 @@ use thiserror::Error;
 pub enum CompressionError {
     #[error("Input is not compressed using {0}.")]
     InvalidInput(String),
+
+    #[error("Input of {0} bytes is too large to be stored as {1}.")]
+    InputTooLarge(usize, String),
 }
 
 #[derive(Error, Debug)]
